@@ -149,6 +149,22 @@ def h_define(shape):
         for name, tid in zip(names, ids):
             pos = list(q[name].as_array(detach=True)) if hasattr(q[name], "as_array") else list(q[name])
             obs.append(("k2:qubit_sits_on_its_trap", AND(*[EQ(x, y) for x, y in zip(pos, list(td[tid]))])))
+        # a register given together with a layout and trap ids: accepted iff the i-th qubit sits on the i-th listed trap
+        coords = {name: np.array(list(td[tid]), dtype=object) for name, tid in zip(names, ids)}
+        try:
+            type(reg)(coords, layout=lay, trap_ids=tuple(ids))
+            ok_same = True
+        except ValueError:
+            ok_same = False
+        obs.append(("k2:register_with_matching_trap_ids_is_accepted", ok_same))
+        if len(ids) >= 2:
+            wrong = tuple(ids[1:]) + (ids[0],)
+            try:
+                type(reg)(coords, layout=lay, trap_ids=wrong)
+                ok_wrong = True
+            except ValueError:
+                ok_wrong = False
+            obs.append(("k2:register_with_permuted_trap_ids_is_refused", not ok_wrong))
         return obs
 
     return h
@@ -215,6 +231,16 @@ def h_wmap(shape):
             obs.append(("k3:qubit_gets_weight_of_its_trap", IMPLIES(sep, EQ(g1["q%d" % i], W[i]))))
             obs.append(("k3:weight_map_order_independent", IMPLIES(sep, EQ(g1["q%d" % i], g2["q%d" % i]))))
         obs.append(("k3:no_trap_no_weight", AND(EQ(g1["qfar"], 0.0), EQ(g2["qfar"], 0.0))))
+        # the SAME map object asked again about qubits that carry the same ids at OTHER positions (ids exchanged, one moved
+        # away): the answer follows the positions, whatever was asked before
+        if n >= 2:
+            swapped = dict(qubits)
+            swapped["q0"], swapped["q1"] = qubits["q1"], qubits["q0"]
+            swapped["qfar"] = qubits["q0"]
+            g1b = m1.get_qubit_weight_map(swapped)
+            obs.append(("k3:weight_follows_position_not_id", IMPLIES(sep, AND(EQ(g1b["q0"], W[1]), EQ(g1b["q1"], W[0]), EQ(g1b["qfar"], W[0])))))
+            g1c = m1.get_qubit_weight_map(qubits)
+            obs.append(("k3:weight_follows_position_not_id", IMPLIES(sep, AND(EQ(g1c["q0"], W[0]), EQ(g1c["q1"], W[1]), EQ(g1c["qfar"], 0.0)))))
         # the same map defined from a REGISTER, with the weights given in another order than the register's qubits
         from pulser import Register
 
